@@ -356,6 +356,9 @@ func c12R2(p *Prog, r *Report, comm *FuncInfo, ks *switchInfo) {
 		}
 		return true
 	})
+	if okEnum && !okRet {
+		okRet = boolTableEval(p, bf) // any spelling of the result, decided for "", "yes", "no"
+	}
 	if okEnum && okRet {
 		r.OK("config/parse.Bool", p.PosStr(bf.Decl.Pos()), "Enum(empty allowed, remaining, yes, no); true iff the value is empty or `yes`")
 	} else {
@@ -487,7 +490,7 @@ func c12R3(p *Prog, r *Report) {
 		}
 		info := fi.Pkg.TypesInfo
 		ok := false
-		ast.Inspect(fi.Decl, func(nn ast.Node) bool {
+		p.inspectRegion(w.fn, func(_ *FuncInfo, nn ast.Node) bool {
 			cl, isCl := nn.(*ast.CompositeLit)
 			if isCl && isNamed(info.TypeOf(cl), w.typPkg, w.typ) {
 				if v := compositeField(cl, w.field); v != nil && isFieldSel(info, v, w.ownerPkg, w.owner, w.src) {
@@ -504,7 +507,10 @@ func c12R3(p *Prog, r *Report) {
 	}
 	if fi := p.Func("config.Parse"); fi != nil {
 		info := fi.Pkg.TypesInfo
-		calls := findCalls(info, fi.Decl, modPath+"/config", "", "parseConverter")
+		var calls []*ast.CallExpr
+		for _, rf := range p.Region("config.Parse") {
+			calls = append(calls, findCalls(info, rf.Decl, modPath+"/config", "", "parseConverter")...)
+		}
 		if len(calls) == 1 && isFieldSel(info, calls[0].Args[2], modPath+"/config", "Raw", "Global") {
 			r.OK("config.Parse/parseConverter(global)", p.PosStr(calls[0].Pos()), "every converter receives raw.Global")
 		} else {
